@@ -167,6 +167,9 @@ QUICK = {
     'unicast-response': sh(multicast=False, questions=['Q:_s._tcp.local.'], answers=['TXT:a._s._tcp.local.'], additionals=['A:h.local.']),
     'hinfo-then-names': sh(answers=['HINFO:h.x.local.', 'TXT:a.x.local.'], additionals=['SRV:a.x.local.>h.x.local.']),
     'empty': sh(),
+    # a long question that no longer fits, followed by a question that would (a name already in the datagram): the message id is the only
+    # solver variable here, the sizes are concrete (several filler counts so that the leftover space falls between the two question sizes)
+    **{f'questions-of-different-sizes-{k}': sh(query=True, questions=[f'Q:_t{i:03d}._tcp.local.' for i in range(k)] + ['Q:' + 'x' * 60 + '._udp.example.', 'Q:_t000._tcp.local.', 'Q:_t001._tcp.local.']) for k in (127, 128, 129)},
     'one-txt-up-to-the-limit': sh(answers=['TXT<=8933:a.x.local.']),  # header 12 + name 11 + fixed 10 + rdata: exactly 8966 at the top
     'a-then-txt-up-to-the-limit': sh(answers=['A:h.x.local.', 'TXT<=8933:a.x.local.']),
     'odd-address-lengths': sh(query=True, questions=['Q:_s._tcp.local.'], answers=['ADDR:h.x.local.', 'ADDR:h.x.local.', 'PTR:_s._tcp.local.>h.x.local.', 'SRV:a.x.local.>h.x.local.']),
